@@ -48,6 +48,7 @@ def run(chk):
     chk.obligations += 1
     u["obligations"] += 1
     chk.solver_s += res.get("solver_time_s", 0.0)
+    chk.solver_checks += max(1, res.get("checks", 0) or 0)      # CBMC properties decided by the SAT back end
     chk.paths += 1
     u["paths"] += 1
     if res["status"] == "success":
@@ -86,6 +87,8 @@ def run(chk):
     chk.obligations += 1
     u["obligations"] += 1
     chk.solver_s += res2.get("solver_time_s", 0.0)
+    chk.solver_checks += max(1, res2.get("checks", 0) or 0)
+    chk.paths += 1
     if res2["status"] == "success":
         chk.discharged += 1
         u["discharged"] += 1
